@@ -2,6 +2,7 @@
    msgser <dag|-> <msg>            model `MessageAny.serialize`        -> ok <hash> <bits> <ref hashes> | err
    msgenc <dag|-> <msg> <ib>       spec encoder, i/b = Either choices   -> ok <hash> <bits> <ref hashes> | err
    msgdec <dag> <node>             spec decoder `decodeMessage`         -> ok <canonical msg> | err
+   msgdecs <dag> <node>            strict reader `decodeMessageStrict` (address classes of `Message X` proper)
    msgpar <dag> <node>             model `MessageAny.deserialize`       -> ok <canonical msg> | err
    siser/sienc, sidec/sipar ; ccser/ccenc, ccdec/ccpar : same for StateInit / CurrencyCollection
    wser/wenc <dag|-> <wrapper>  ;  wdec/wpar <dag> <node> <kind>        HashUpdate, wallet data, NFT item / sale data
@@ -191,6 +192,7 @@ def handle? (op : String) (args : List String) : Option String :=
       let (i, b) ← choices ch
       pure (showCell (encMessage rops (← pMsg ctx m) i b)))
   | "msgdec", [dag, n] => some (withDag dag fun ctx => do pure (showOpt showMsg (decodeMessage rops (← node ctx n))))
+  | "msgdecs", [dag, n] => some (withDag dag fun ctx => do pure (showOpt showMsg (decodeMessageStrict rops (← node ctx n))))
   | "msgpar", [dag, n] => some (withDag dag fun ctx => do pure (showOpt showMsg (Message.deserialize rops (← node ctx n))))
   | "siser", [dag, s] => some (withDag dag fun ctx => do pure (showCell (Message.serializeStateInit rops (← pStateInit ctx s))))
   | "sienc", [dag, s] => some (withDag dag fun ctx => do pure (showCell ((encStateInit (← pStateInit ctx s)).bind (mkChunk rops))))
